@@ -207,9 +207,9 @@ func RunChecker(l *Loaded, ex *Exec, ch sched.Chooser) (*Outcome, *ExecStats, er
 		}
 		for _, d := range act.diags {
 			pos := l.Fset.Position(d.Pos)
-			out.Diags[act.pkg.ID] = append(out.Diags[act.pkg.ID], Diag{act.a.Name, strings.TrimPrefix(pos.Filename, simRoot), pos.Line, pos.Column, d.Message, DiagRest(l.Fset, d)})
+			out.Diags[act.pkg.ID] = append(out.Diags[act.pkg.ID], Diag{act.a.Name, strings.TrimPrefix(pos.Filename, simRoot), pos.Line, pos.Column, RelMsg(d.Message), DiagRest(l.Fset, d)})
 			out.Actions = append(out.Actions, act.String())
-			out.RawDiags = append(out.RawDiags, Diag{act.a.Name, strings.TrimPrefix(pos.Filename, simRoot), pos.Line, pos.Column, d.Message, DiagRest(l.Fset, d)})
+			out.RawDiags = append(out.RawDiags, Diag{act.a.Name, strings.TrimPrefix(pos.Filename, simRoot), pos.Line, pos.Column, RelMsg(d.Message), DiagRest(l.Fset, d)})
 		}
 	}
 	out.Normalise()
